@@ -1,6 +1,9 @@
 package main
 
 import (
+	"fmt"
+	"go/token"
+	"go/types"
 	"strings"
 
 	"golang.org/x/tools/go/ssa"
@@ -224,4 +227,307 @@ func (c *Ctx) ruleEmptyRoot() {
 		})
 	})
 	c.ob("R-EMPTYROOT", "(*InMemoryTrie).Hash:nil-root", h.Pos(), okH, "Hash() must return trie.EmptyHash exactly when the root is nil")
+}
+
+func init() {
+	register("C07", "header variant table/exhaustiveness (R-VARIANT), short-read (R-READFULL), allocation/interval no-wrap (R-ALLOC), explicit-panic reachability (R-NOPANIC), nil inlined child (R-NILCHILD), header length loop (R-HEADERLOOP), field order (R-ENCORDER)",
+		"Decides for both node codecs (pkg/trie/node and pkg/trie/triedb/codec), for every input byte string: the header byte table equals the specification and every variant the header decoder can return has a non-panicking handler; no Read discards its byte count; every buffer sized by a decoded length is bounded by type (<= 2^16 nibbles) and its size arithmetic cannot wrap (so the maximum key length 65535 decodes); no explicit panic is reachable from Decode; an inlined child that decodes to the empty node is rejected before it is dereferenced; the multi-byte key-length loop reads a byte and checks overflow on every iteration (terminates); encoder and decoder use the same field order. "+
+			"Not decided: value-level round-trip equality; nil dereferences other than the tabled one; panics inside the Go runtime (index/slice) other than those guarded by the interval rule.",
+		"io.Reader contract; pkg/scale's byte-string decoder is covered by C12", "DESIGN.md §3 R-VARIANT, R-READFULL, R-ALLOC, R-NOPANIC; §4 C07",
+		func(c *Ctx) {
+			c.load("pkg/trie/node", "pkg/trie/triedb/codec", "pkg/scale", "pkg/trie/codec")
+			c.ruleVariant("pkg/trie/node")
+			c.ruleVariant("pkg/trie/triedb/codec")
+			c.min("R-VARIANT/table", 14)
+			c.min("R-VARIANT/exhaustive", 14)
+			c.ruleReadFull("R-READFULL", "pkg/trie/node", "pkg/trie/triedb/codec")
+			c.min("R-READFULL", 6)
+			c.ruleAlloc("R-ALLOC", 1<<17, "pkg/trie/node", "pkg/trie/triedb/codec")
+			c.min("R-ALLOC", 2)
+			c.ruleNodeEncodeOrder()
+			c.ruleNilChild()
+			c.ruleHeaderLoop("pkg/trie/node")
+			c.ruleHeaderLoop("pkg/trie/triedb/codec")
+			var entries []*ssa.Function
+			entries = append(entries, c.fn("pkg/trie/node", "Decode"))
+			if sp := c.ssaPkg("pkg/trie/triedb/codec"); sp != nil {
+				entries = append(entries, sp.Func("Decode"))
+			}
+			c.ruleNoPanic("R-NOPANIC", entries, map[string]string{
+				"Decode#1":       "default of the variant switch; every variant decodeHeaderByte can return has a case (decided on this run by R-VARIANT/exhaustive)",
+				"Decode[H]#1":    "default of the variant switch; every variant decodeHeaderByte can return has a case (decided on this run by R-VARIANT/exhaustive)",
+				"decodeBranch#1": "codec.decodeBranch: scale.Unmarshal of a child reference into the fixed-length hash H on the len(hash) >= H.Length() edge cannot fail (exactly Length() bytes are read); probed with 32..63 byte references",
+				"decodeBranch[H]#1": "same as decodeBranch#1 (generic origin)",
+			}, nil)
+		})
+}
+
+// R-NILCHILD: the node returned by node.Decode ((nil, nil) for the empty header 0x00) is nil-checked before any
+// dereference, in every function that decodes untrusted node encodings.
+func (c *Ctx) ruleNilChild() { c.ruleNilDecode("R-NILCHILD", false, "pkg/trie/node") }
+
+func (c *Ctx) ruleNilDecode(rule string, xref bool, dirs ...string) {
+	c.doc(rule, "every dereference (field access) of the *Node returned by node.Decode is dominated by a nil test of it: Decode returns (nil, nil) for the empty-node header")
+	for _, dir := range dirs {
+		sp := c.ssaPkg(dir)
+		if sp == nil {
+			continue
+		}
+		total := 0
+		for _, f := range allFuncs(c, sp) {
+			n := 0
+			eachInstr(f, func(b *ssa.BasicBlock, _ int, in ssa.Instruction) {
+				fa, ok := in.(*ssa.FieldAddr)
+				if !ok {
+					return
+				}
+				var ex *ssa.Extract
+				for _, v := range phiInputs(fa.X) {
+					if e, ok := v.(*ssa.Extract); ok {
+						if call, ok := e.Tuple.(*ssa.Call); ok && e.Index == 0 && strings.HasSuffix(calleeName(&call.Call), "pkg/trie/node.Decode") {
+							ex = e
+						}
+					}
+				}
+				if ex == nil {
+					return
+				}
+				n++
+				total++
+				ok2 := guardedBy(b, func(cond ssa.Value, truth bool) bool {
+					e, neq, isN := nilCmp(cond)
+					return isN && (e == ssa.Value(ex) || e == fa.X) && truth == neq
+				})
+				key := fmt.Sprintf("%s:decoded-node-deref#%d", relName(f.String()), n)
+				msg := shortFn(f) + " dereferences the node returned by node.Decode without a nil check: an encoding of the empty node (0x00) makes Decode return (nil, nil) and the caller panics"
+				if xref {
+					c.xref(rule, key, fa.Pos(), ok2, msg)
+				} else {
+					c.ob(rule, key, fa.Pos(), ok2, msg)
+				}
+			})
+		}
+		if total == 0 && !xref {
+			c.ob(rule, dir+":decoded-node-deref", sp.Members["init"].Pos(), false, "no dereference of a decoded node found in "+dir+" (anchor changed)")
+		}
+	}
+}
+
+// R-HEADERLOOP: the unbounded loop accumulating the partial key length reads from the reader on every iteration with
+// the error exiting, and the accumulating uint16 addition is followed by an overflow comparison.
+func (c *Ctx) ruleHeaderLoop(dir string) {
+	f := c.fn(dir, "decodeHeader")
+	if f == nil {
+		return
+	}
+	c.doc("R-HEADERLOOP", "decodeHeader: the accumulation `partialKeyLength += uint16(b)` is checked for wrap-around (result < previous => error) and each loop iteration performs a Read whose error leaves the loop")
+	n := 0
+	eachInstr(f, func(b *ssa.BasicBlock, _ int, in ssa.Instruction) {
+		bo, ok := in.(*ssa.BinOp)
+		if !ok || bo.Op.String() != "+" {
+			return
+		}
+		bt, ok := bo.Type().Underlying().(*types.Basic)
+		if !ok || bt.Kind() != types.Uint16 {
+			return
+		}
+		// only the accumulation (one operand is a phi / loop-carried)
+		if _, isPhi := bo.X.(*ssa.Phi); !isPhi {
+			if _, isPhi2 := bo.Y.(*ssa.Phi); !isPhi2 {
+				return
+			}
+		}
+		n++
+		checked := false
+		for _, r := range *bo.Referrers() {
+			if cmp, ok := r.(*ssa.BinOp); ok && (cmp.Op.String() == "<" || cmp.Op.String() == ">") {
+				other := cmp.Y
+				if cmp.Y == ssa.Value(bo) {
+					other = cmp.X
+				}
+				if other == bo.X || other == bo.Y {
+					// the comparison must guard an error exit
+					for _, rr := range *cmp.Referrers() {
+						if iff, ok := rr.(*ssa.If); ok {
+							if blockRejects(iff.Block().Succs[0]) || blockRejects(iff.Block().Succs[1]) {
+								checked = true
+							}
+						}
+					}
+				}
+			}
+		}
+		c.ob("R-HEADERLOOP", fmt.Sprintf("%s.decodeHeader:accumulate#%d", dir, n), bo.Pos(), checked,
+			"the uint16 accumulation of the partial key length must be followed by an overflow check (sum < previous => ErrPartialKeyTooBig); otherwise a long length prefix wraps to a short key")
+		// a Read in the same loop (same or dominating block within the loop): look for a Read call that dominates the add
+		hasRead := false
+		eachInstr(f, func(rb *ssa.BasicBlock, _ int, rin ssa.Instruction) {
+			if call, ok := rin.(*ssa.Call); ok && isReaderRead(&call.Call) && rb.Dominates(b) && reachable(b, rb) {
+				hasRead = true
+			}
+		})
+		c.ob("R-HEADERLOOP", fmt.Sprintf("%s.decodeHeader:read-per-iteration#%d", dir, n), bo.Pos(), hasRead,
+			"each iteration of the length loop must consume a byte from the reader (otherwise the loop does not terminate on a constant 255 byte)")
+	})
+	if n == 0 {
+		c.ob("R-HEADERLOOP", dir+".decodeHeader:accumulate", f.Pos(), false, "accumulating addition not found (anchor changed)")
+	}
+}
+
+func init() {
+	register("C04", "hashed-value resolution and DB key agreement (R-HASHEDVALUE), walker rules on the DB reader (R-KEYMATCH), batch write discipline (R-ORDER/batch), thresholds on the persistence path (R-THRESH)",
+		"Decides structural necessary conditions of `reloading/reading by root returns the same values`: the DB reader returns a value only through the non-hashed edge or resolves the hash with the key layout the writer used (PartialKey || hash); child lookups by Merkle value skip inlined children; the reader descends only through matching partial keys and targets exact matches; all node writes of one state go into one batch that is flushed only on success; the writer and loader agree on which nodes are inlined (<32 bytes). "+
+			"Not decided: that every dirty node/child trie is reached by the writer, value equality after reload.",
+		"database Get/Put/batch semantics trusted", "DESIGN.md §3 R-HASHEDVALUE, R-KEYMATCH, R-ORDER/batch; §4 C04",
+		func(c *Ctx) {
+			c.load("pkg/trie", "pkg/trie/inmemory", "pkg/trie/node")
+			c.ruleHashedValue()
+			c.min("R-HASHEDVALUE", 3)
+			c.min("R-HASHEDVALUE/dbget", 2)
+			c.min("R-HASHEDVALUE/key", 3)
+			c.ruleKeyMatch([]walkerSpec{trieWalkers[4]})
+			c.min("R-KEYMATCH/K2", 1)
+			c.ruleWriteDirtyBatch()
+			c.min("R-ORDER/batch", 3)
+			c.ruleThresh("pkg/trie/inmemory")
+			c.min("R-THRESH", 7)
+			c.ruleValueCarry(ownExempt)
+		})
+}
+
+func init() {
+	register("C05", "proof walkers and verifier rules on SSA: locally computed digests (R-PROOFHASH), value comparison dominance (R-VERIFYCMP), nil decoded nodes (R-NILDECODE), walker key matching (R-KEYMATCH), hashed-value resolution (R-HASHEDVALUE), placeholder-vs-inlined test (R-NILVALUE), explicit panics (R-NOPANIC)",
+		"Decides structural necessary conditions of proof soundness/completeness: every proof node is keyed by the digest the verifier computes itself and the root is selected by equality of that digest with the given root hash (a supplied node can never stand for another hash); a success return of Verify is dominated by the value comparison (or the documented empty-expected-value case, recorded as a known finding); decoded nodes are nil-checked before use; the proof generator and the lookup that ends verification only descend through matching partial keys and target exact matches; hashed values are resolved before being returned/compared; inlined children are told from placeholders by nil-ness, not emptiness. "+
+			"Not decided: that the generator includes the value node of V1 hashed values; hash collision resistance.",
+		"blake2b trusted; node.Decode robustness is C07's", "DESIGN.md §3 R-PROOFHASH, R-VERIFYCMP, R-KEYMATCH; §4 C05",
+		func(c *Ctx) {
+			c.load("pkg/trie", "pkg/trie/inmemory", "pkg/trie/node", "pkg/trie/inmemory/proof", "pkg/trie/db", "pkg/scale", "pkg/trie/codec")
+			c.ruleProofHash()
+			c.ruleNilDecode("R-NILDECODE", false, "pkg/trie/inmemory/proof")
+			c.ruleNilDecode("R-NILDECODE-trusted-db", true, "pkg/trie/inmemory")
+			c.min("R-NILDECODE", 2)
+			c.ruleKeyMatch(append(append([]walkerSpec{}, proofWalkers...), trieWalkers[0], trieWalkers[1]))
+			c.min("R-KEYMATCH/K2", 3)
+			c.min("R-KEYMATCH/K1", 4)
+			c.ruleHashedValue()
+			c.ruleNilValue("pkg/trie/inmemory/proof")
+			entries := []*ssa.Function{c.fn("pkg/trie/inmemory/proof", "Verify")}
+			c.ruleNoPanic("R-NOPANIC", entries, map[string]string{
+				"Decode#1":           "default of the variant switch; every variant decodeHeaderByte can return has a case (R-VARIANT/exhaustive, C07)",
+				"retrieveFromLeaf#1": "db.Get on the proof MemoryDB fails only for a key that is not 32 bytes or not present; the key is the 32-byte hashed value decodeHashedValue produced; a missing value node is the generator's incompleteness noted under not_decided — recorded as cross-reference",
+				"retrieveFromBranch#1": "same as retrieveFromLeaf#1",
+			}, func(f *ssa.Function) bool {
+				// stay inside the proof verifier, the trie lookup and the node decoder
+				p := f.Pkg
+				if p == nil && f.Origin() != nil {
+					p = f.Origin().Pkg
+				}
+				if p == nil {
+					return true
+				}
+				switch relName(p.Pkg.Path()) {
+				case "pkg/trie/inmemory/proof", "pkg/trie/inmemory", "pkg/trie/node", "pkg/trie/db", "pkg/trie/codec":
+					return false
+				}
+				return true
+			})
+		})
+}
+
+// R-PROOFHASH / R-VERIFYCMP
+func (c *Ctx) ruleProofHash() {
+	c.doc("R-PROOFHASH", "buildTrie keys digestToEncoding with the digest it computes (MerkleValueRoot of the node bytes) and selects the root by bytes.Equal(digest, rootHash); NewMemoryDBFromProof keys by the locally computed hash")
+	bt := c.fn("pkg/trie/inmemory/proof", "buildTrie")
+	if bt != nil {
+		var digestSrc ssa.Value
+		eachInstr(bt, func(_ *ssa.BasicBlock, _ int, in ssa.Instruction) {
+			if call, ok := in.(*ssa.Call); ok && strings.HasSuffix(calleeName(&call.Call), "node.MerkleValueRoot") {
+				digestSrc = call.Call.Args[1] // the buffer the digest is written to
+			}
+		})
+		fromDigest := func(v ssa.Value) bool {
+			if digestSrc == nil {
+				return false
+			}
+			for x := range backwardSlice(v, nil) {
+				if call, ok := x.(*ssa.Call); ok && strings.HasSuffix(calleeName(&call.Call), "(*bytes.Buffer).Bytes") {
+					for y := range backwardSlice(call.Call.Args[0], nil) {
+						for z := range backwardSlice(digestSrc, nil) {
+							if y == z {
+								if _, isCall := y.(*ssa.Call); isCall {
+									return true
+								}
+								if _, isEx := y.(*ssa.TypeAssert); isEx {
+									return true
+								}
+							}
+						}
+					}
+				}
+			}
+			return false
+		}
+		n := 0
+		eachInstr(bt, func(_ *ssa.BasicBlock, _ int, in ssa.Instruction) {
+			if mu, ok := in.(*ssa.MapUpdate); ok {
+				n++
+				c.ob("R-PROOFHASH", fmt.Sprintf("buildTrie:map-key#%d", n), mu.Pos(), fromDigest(mu.Key), "proof nodes must be indexed by the digest computed locally from their bytes, never by anything the prover states")
+			}
+		})
+		// root selection
+		rootSel := false
+		eachInstr(bt, func(b *ssa.BasicBlock, _ int, in ssa.Instruction) {
+			call, ok := in.(*ssa.Call)
+			if !ok || !strings.HasSuffix(calleeName(&call.Call), "node.Decode") {
+				return
+			}
+			rootSel = guardedBy(b, func(cond ssa.Value, truth bool) bool {
+				eq := callTo(cond, "bytes.Equal")
+				if eq == nil || !truth {
+					return false
+				}
+				a0, a1 := eq.Call.Args[0], eq.Call.Args[1]
+				return (fromDigest(a0) && a1 == ssa.Value(bt.Params[1])) || (fromDigest(a1) && a0 == ssa.Value(bt.Params[1]))
+			})
+		})
+		c.ob("R-PROOFHASH", "buildTrie:root-selected-by-digest", bt.Pos(), rootSel, "the root node is decoded only on the edge where its locally computed digest equals the given root hash")
+	}
+	c.doc("R-VERIFYCMP", "every success return of proof.Verify is dominated by the true edge of bytes.Equal(value, proofTrieValue); the `len(value) > 0 &&` bypass is the recorded finding D28")
+	v := c.fn("pkg/trie/inmemory/proof", "Verify")
+	if v == nil {
+		return
+	}
+	for i, r := range returnsOf(v) {
+		if !isNilConst(r.Results[0]) {
+			continue
+		}
+		facts := factsAt(r.Block())
+		eq, bypass := false, false
+		for _, fc := range facts {
+			if callTo(fc.cond, "bytes.Equal") != nil && fc.truth {
+				eq = true
+			}
+		}
+		// reachable without the Equal-true edge?
+		if !eq {
+			// is the only alternative the documented len(value)==0 bypass?
+			for _, b := range v.Blocks {
+				if iff := ifOf(b); iff != nil {
+					if subj, op, k, ok := cmpWithConst(iff.Cond); ok && k == 0 && op == token.GTR {
+						if l, ok := lenOf(subj); ok && l == ssa.Value(v.Params[3]) {
+							bypass = true
+						}
+					}
+				}
+			}
+		}
+		key := fmt.Sprintf("Verify:success-return#%d", i+1)
+		if eq {
+			c.ob("R-VERIFYCMP", key, r.Pos(), true, "success dominated by the value comparison")
+		} else if bypass {
+			c.ob("R-VERIFYCMP", key+":empty-expected-value-bypass", r.Pos(), false, "Verify succeeds without comparing values when the expected value is empty: Verify(proof, root, k, \"\") confirms any present key whatever its value")
+		} else {
+			c.ob("R-VERIFYCMP", key, r.Pos(), false, "a success return of Verify is not dominated by the comparison of the expected value with the value found in the proof trie")
+		}
+	}
 }
